@@ -260,6 +260,29 @@ def chained_oracle(rng):
         return ({"cls": "DependenceFunction", "clause": "defaults"}, "def f(x, a, b=0.5, c=2.0) gives parameters %r, expected a=1 (no default), b=0.5, c=2.0" % (dict(f_part.parameters),))
     if not np.allclose(f_part(np.array([0.0, 1.0, 2.0])), part(np.array([0.0, 1.0, 2.0]), 1), rtol=1e-15):
         return ({"cls": "DependenceFunction", "clause": "defaults"}, "the no-argument call does not use the declared defaults")
+    # declared defaults of exactly 0 (int, float, negative zero) are values like any other, also inside a conditional distribution
+    z0 = rng.choice([0, 0.0, -0.0])
+
+    def zdef(x, a=z0, b=1.5, c=0.0):
+        return a + b * x + c * x * x
+
+    def sdef(x, a=0.0, b=0.2):
+        return 0.3 + a + b * x
+    f_z, f_s = DependenceFunction(zdef), DependenceFunction(sdef)
+    if dict(f_z.parameters) != {"a": 0, "b": 1.5, "c": 0.0} or dict(f_s.parameters) != {"a": 0.0, "b": 0.2}:
+        return ({"cls": "DependenceFunction", "clause": "defaults-zero"}, "def f(x, a=%r, b=1.5, c=0.0) / def s(x, a=0.0, b=0.2) give parameters %r / %r" % (
+            z0, dict(f_z.parameters), dict(f_s.parameters)))
+    import virocon as _v
+    cz = _v.distributions.ConditionalDistribution(_v.LogNormalDistribution(), {"mu": f_z, "sigma": f_s})
+    xs = np.array([0.5, 2.0, 6.0])
+    for g in (1.0, 2.5):
+        ref = _v.LogNormalDistribution(mu=1.5 * g, sigma=0.3 + 0.2 * g)
+        for meth, arg in (("cdf", xs), ("pdf", xs), ("icdf", np.array([0.1, 0.5, 0.9]))):
+            got, want = getattr(cz, meth)(arg, given=g), getattr(ref, meth)(arg)
+            if not np.allclose(got, want, rtol=1e-12):
+                return ({"cls": "ConditionalDistribution", "clause": "defaults-zero", "method": meth},
+                        "LogNormal with mu(x) = a + 1.5 x + c x^2 (defaults a=%r, c=0.0) and sigma(x) = 0.3 + a + 0.2 x (default a=0.0), never fitted: "
+                        "%s(%r, given=%r) = %r, the template at mu=%r, sigma=%r gives %r" % (z0, meth, arg.tolist(), g, np.asarray(got).tolist(), 1.5 * g, 0.3 + 0.2 * g, np.asarray(want).tolist()))
     # history: re-fitting the inner function changes what the outer one returns at the same g
     g = np.array([1.0, 4.0])
     before = np.asarray(f_out(g), dtype=float)
